@@ -20,7 +20,7 @@ struct ConDesc {               // what was built, in the form the model needs
 };
 
 inline void push3(std::vector<Real>& v, const Vec3& a) { v.push_back(a[0]); v.push_back(a[1]); v.push_back(a[2]); }
-inline void pushR(std::vector<Real>& v, const Rotation& R) { for (int i = 0; i < 3; ++i) for (int j = 0; j < 3; ++j) v.push_back(R(i, j)); }
+inline void pushR(std::vector<Real>& v, const Rotation& R) { for (int i = 0; i < 3; ++i) for (int j = 0; j < 3; ++j) v.push_back(R.asMat33()(i, j)); }
 
 struct ConSystem {
     MultibodySystem sys; SimbodyMatterSubsystem matter; GeneralForceSubsystem forces;
@@ -119,6 +119,6 @@ struct ConSystem {
     }
 };
 
-inline void pX(const Transform& X) { for (int i = 0; i < 3; ++i) for (int j = 0; j < 3; ++j) std::printf(" %a", X.R()(i, j)); std::printf(" %a %a %a", X.p()[0], X.p()[1], X.p()[2]); }
+inline void pX(const Transform& X) { for (int i = 0; i < 3; ++i) for (int j = 0; j < 3; ++j) std::printf(" %a", X.R().asMat33()(i, j)); std::printf(" %a %a %a", X.p()[0], X.p()[1], X.p()[2]); }
 inline void pReals(const std::vector<Real>& v) { for (size_t i = 0; i < v.size(); ++i) std::printf(" %a", v[i]); }
 #endif
